@@ -1008,6 +1008,8 @@ def known_region(site, rsp):
         return matrix_wide(rsp)
     if site in ('Huber', 'f_huber'):
         return rsp.parts is not None or rsp.has_array_weighting()
+    if site == 'ZeroFunctional*neg':
+        return True
     return False
 
 
